@@ -1097,7 +1097,7 @@ fn corruptions(ctx: &mut Ctx, mon: &mut Mon, m: &Pdu, w: &[u8], cap: u32, reduce
     let truth = w.len() as u32;
     let lens: Vec<u32> = match reduced {
         0 => length_set(truth, cap),
-        1 => vec![0, 7, 8, 9, 11, 12, 13, truth.saturating_sub(1), truth + 1, truth + 4, 1033.min(cap)],
+        1 => vec![0, 7, 8, 9, 11, 12, 13, truth.saturating_sub(1), truth + 1, truth + 4, 1033.min(cap), truth + (1 << 10), truth + (1 << 16), truth + (1 << 18)],
         _ => vec![7, truth.saturating_sub(1), truth + 4],
     };
     for l in lens {
